@@ -202,22 +202,42 @@ Example C13_hypotheses_met_two_objects : disjoint (w_damaged ++ w_objB) /\
   complete [2; 0; 3; 1; 0; 2; 2; 0; 1; 3] none_map (w_damaged ++ w_objB).
 Proof. exact two_objects_ok. Qed.
 
-(* The disjointness hypothesis is about the archive: output names are the member names, except that the
-   k-th repetition of a name becomes name_<k-1>.  Pairwise distinct names stay distinct ... *)
-Theorem C13_outnames_distinct_partial : forall names, NoDup names -> outnames names = names /\ NoDup (outnames names).
+(* The disjointness hypothesis is about the archive: an output is a member's output name, a member belongs to
+   one folder.  Output names are the member names, except that a repeated name gets the first suffix _<k> that
+   yields a name not handed out before (_extract after commit 5112351).  They are pairwise distinct for EVERY
+   list of member names ... *)
+Theorem C13_outnames_distinct : forall names, NoDup (outnames names).
+Proof. exact outnames_nodup_thm. Qed.
+Print Assumptions C13_outnames_distinct.
+
+(* ... and pairwise distinct member names are kept unchanged *)
+Theorem C13_outnames_identity : forall names, NoDup names -> outnames names = names /\ NoDup (outnames names).
 Proof. exact outnames_distinct_thm. Qed.
-Print Assumptions C13_outnames_distinct_partial.
+Print Assumptions C13_outnames_identity.
 
-(* ... but "every member has its own output" is FALSE in general: names a_0, a, a *)
-Theorem C13_outnames_collision_refuted :
-  outnames [[97; 95; 48]; [97]; [97]]%Z = [[97; 95; 48]; [97]; [97; 95; 48]]%Z /\
-  ~ NoDup (outnames [[97; 95; 48]; [97]; [97]]%Z).
-Proof. exact outnames_collision_refuted_thm. Qed.
-Print Assumptions C13_outnames_collision_refuted.
+(* the names that used to collide (a_0, a, a gave a_0, a, a_0 before the repair) *)
+Example C13_outnames_former_collision :
+  outnames [[97; 95; 48]; [97]; [97]]%Z = [[97; 95; 48]; [97]; [97; 95; 49]]%Z /\
+  outnames [[97]; [97]; [97; 95; 48]; [97]]%Z = [[97]; [97; 95; 48]; [97; 95; 48; 95; 48]; [97; 95; 49]]%Z.
+Proof. exact outnames_former_collision. Qed.
 
-(* and then scheduling independence is FALSE: two folders writing one output -- the later wins (what the
-   sequential path does), the earlier wins, or the file is a mixture of both, depending on the schedule *)
-Theorem C13_collision_race_refuted :
+(* hence: when every output has one owning worker the workers are disjoint, and scheduling independence holds
+   with no further hypothesis *)
+Theorem C13_disjoint_of_owner : forall ws (owner : nat -> nat),
+  (forall i w o, nth_error ws i = Some w -> In o (fp w) -> owner o = i) -> disjoint ws.
+Proof. exact disjoint_of_owner_thm. Qed.
+Print Assumptions C13_disjoint_of_owner.
+
+Theorem C13_schedule_independent_archives : forall o0 ws sched (owner : nat -> nat),
+  (forall i w o, nth_error ws i = Some w -> In o (fp w) -> owner o = i) ->
+  complete sched o0 ws ->
+  forall o, s_out (run sched (init o0 ws)) o = s_out (sequential o0 ws) o.
+Proof. exact schedule_independent_owner_thm. Qed.
+Print Assumptions C13_schedule_independent_archives.
+
+(* The hypothesis cannot be dropped (a fact about the model, no longer reachable from an archive): two workers
+   writing one output leave the later one's data, the earlier one's, or a mixture, depending on the schedule *)
+Theorem C13_disjointness_needed :
   disjointb w_collide = false /\
   complete [0; 0; 1; 1] none_map w_collide /\ complete [1; 1; 0; 0] none_map w_collide /\
   complete [0; 1; 0; 1] none_map w_collide /\
@@ -226,7 +246,7 @@ Theorem C13_collision_race_refuted :
   s_out (run [1; 1; 0; 0] (init none_map w_collide)) 0 = Some [65; 65; 65]%Z /\
   s_out (run [0; 1; 0; 1] (init none_map w_collide)) 0 = Some [99; 65; 65]%Z.
 Proof. exact collision_race_refuted_thm. Qed.
-Print Assumptions C13_collision_race_refuted.
+Print Assumptions C13_disjointness_needed.
 
 (* the decision procedure for the hypothesis used by the harness is sound *)
 Theorem C13_disjointb_sound : forall ws, disjointb ws = true -> disjoint ws.
